@@ -7,7 +7,7 @@ from common import CBuild
 PID = "C18"
 TRUSTED = ["direct scan of the bytes the real tool writes to stdout and stderr"]
 ASSUMPTIONS = ["member data used in 'p' mode is itself printable, so every other byte is header-derived or the tool's own",
-               "theorem covers the list commands (model ListOut.v); t/x/p header lines are covered by the output scan only"]
+               "the theorems are about the tool model (ListOut.v, CliExtract.v, CliMain.v); the tool model is tied to the tool by the C06/C10 correspondence and by this byte scan"]
 MODES = ["l", "lv", "v", "vv", "lq2", "vq1", "t", "tq1", "xn", "x", "xq0", "xq1", "xq2", "xf", "p", "pq", "e"]
 ALLOWED = set(range(0x20, 0x7f)) | {9, 10, 13}
 
